@@ -239,7 +239,7 @@ pub fn draw_plan(prop: &str, index: u64, r: &mut Rng, thorough: bool) -> RunPlan
                 &[0, 1, 2, 3, 7, 8, 9, 15, 16, 17, 31, 33, 63, 64, 65, 127, 128, 129, 255, 257, 511, 513, 1023, 1025, 2047, 4095, 4097, 8191, 16383, 16385, 32767, 65537, 200_000, 262_145]
             };
             // boundary sizes most of the time, any size in between otherwise
-            if index % 2 == 1 && !(thorough && index % 20_000 == 10_003) {
+            if (index / 3) % 2 == 1 && !(thorough && index % 20_000 == 10_003) {
                 // general histories: the arena may have been much fuller earlier than it is at export time
                 c.universe = *r.pick(&[64, 1024, 1 << 20]);
                 return RunPlan { cfg: c, len: draw_len(r, thorough).max(if r.chance(1, 2) { 200 } else { 40 }), bulk: None, ord_bulk: None };
@@ -315,7 +315,15 @@ pub fn draw_plan(prop: &str, index: u64, r: &mut Rng, thorough: bool) -> RunPlan
     // range (segment tree): the scale at which a single call meets 10^5 expired entries
     // (ten times as often in the process-outcome check, whose extra pass on an unoptimised build
     // covers only its first few thousand runs)
-    let mass_stride = if cfg.has(O_CRASH) { 101 } else { 4_001 };
+    let mass_stride = if cfg.has(O_CRASH) {
+        if thorough {
+            1_009
+        } else {
+            101
+        }
+    } else {
+        4_001
+    };
     if index % mass_stride == 9 && !interpreted && !cfg.has(O_TORN) && bulk.is_none() && ord_bulk.is_none() && cfg.cap <= 1_000_000 {
         match cfg.world {
             WorldKind::Key => {
